@@ -60,6 +60,16 @@ META = {
             "text": "TLC checks exclusion, freshness and deadlock freedom over all interleavings of 2-3 readers and 2 writers (and finds the pinned tree's deadlock when the repair is disabled); "
                     "recorded histories of the real lock on two endpoints are checked step by step for overlap, stale reads, lost writes and requests that never complete.",
             "note": "Bounds: 3 readers x 2 writers in the model; real code on single-threaded seeded schedules with H1 deferral of remoc's internal tasks. Trusted: TLC, harness tracer, guard logging order."},
+    "C12": {"technique": "TLA+ model of request queue, serve loop, lock and dispatcher per server flavour (Rtc.tla, safety) + TLC trace validation of call histories with the callee's steps logged from inside the target (RtcTrace)",
+            "text": "TLC checks at-most-once execution, own-result, atomicity of mutable methods and absence of lost updates over all interleavings of four calls for the sequential and the shared "
+                    "flavours (and finds the violations when the lock or the once-only dispatch is removed); recorded histories of the generated servers (by-value, RefMut, SharedMut spawn/no-spawn) "
+                    "with local and remote clients are replayed by TLC against the model's target state: every value an execution reads, writes and returns must be the model's.",
+            "note": "Bounds: 4 calls, queue 2 in the model; real code on single-threaded seeded schedules with H1 deferral, 2-4 clients x 2-4 calls. Trusted: TLC, harness tracer, logging inside the target object."},
+    "C19": {"technique": "TLA+ model with fairness (Rtc.tla liveness: every non-abandoned call completes, hanging calls are dropped) + TLC trace validation of histories with hanging, non-cancellable, undecodable, unknown and oversized calls",
+            "text": "TLC checks under weak fairness that an abandoned hanging call never wedges the serve loop and that non-cancellable executions are never dropped (and finds the wedge when the "
+                    "cancellation race is removed); on the real code a call that never completes, a dropped non-cancellable execution, an unrelated call failing after an item-specific failure, "
+                    "or a server that does not end after its clients are gone is a violation.",
+            "note": "Known finding F6: a reply over the caller's size limit ends the whole serve loop (pinned by the repository's own test rtc::errors::max_item_size_exceeded, so it cannot be repaired without editing the suite)."},
     "C13": {"technique": "TLA+ reference semantics of the collections (Robs.tla): TLC proves mirror = collection for every bounded state x operation, generates operation scripts that are replayed on the real collections, and validates the recorded runs (RobsTrace)",
             "text": "The model theorem (folding the specified events gives the new contents) is checked exhaustively over 11 782 state/operation pairs; TLC-generated scripts are executed on the real "
                     "observable, a real mirror (local and remote) and a hand-written consumer, and TLC checks that all three equal the reference contents after every operation.",
